@@ -125,4 +125,26 @@ theorem xm_eq (m : Nat) : (m &&& ModShift) ||| (m &&& ModAlt) ||| (m &&& ModCtrl
 
 
 
+/-! ### The keypad block of `encodeXterm` (F413 fixed) -/
+
+/-- Every key of the two keypad tables is a keypad key code. -/
+theorem keypad_tables_above :
+    ((keypadApplicationMode.all fun e => decide (KeyKeyPad0 ≤ e.1)) &&
+     (keypadNumericMode.all fun e => decide (KeyKeyPad0 ≤ e.1))) = true := by decide
+
+/-- Below the keypad key codes (every character key, Tab / Enter / Escape / BackSpace, the cursor, editing and
+    function keys) the keypad block does nothing: `encodeXterm` is `encodeXtermCore`. -/
+theorem encodeXterm_core_of_lt (u : Uni) (k : Key) (pam ckm : Bool) (h : k.keycode < KeyKeyPad0) :
+    encodeXterm u k pam ckm = encodeXtermCore u k pam ckm := by
+  have hall := keypad_tables_above
+  simp only [Bool.and_eq_true, List.all_eq_true, decide_eq_true_eq] at hall
+  have h1 : lookup k.keycode keypadApplicationMode = none :=
+    lookup_none_of_lt _ _ (fun e he => by have := hall.1 e he; omega)
+  have h2 : lookup k.keycode keypadNumericMode = none :=
+    lookup_none_of_lt _ _ (fun e he => by have := hall.2 e he; omega)
+  unfold encodeXterm keypadLegend
+  simp only [h1, h2, ite_self, Option.getD_none]
+
+theorem maxRune_lt_keypad : maxRune < KeyKeyPad0 := by decide
+
 end VaxisModel.Lemmas.TermInput
